@@ -188,13 +188,15 @@ def enum_paths(body, limit=5000):
     """Enumerate acyclic paths through ``body``.  Each path is a list of
     events ``("stmt", node)``, ``("cond", test_node, truth)``,
     ``("handler", handler_node)`` and ends with ``("return"|"raise"|"fall",
-    node)``.  Loop bodies are taken 0 or 1 times.  try/except: the body path
-    plus, for each handler, a path that enters the handler after each prefix of
-    the body (prefixes cut at statement boundaries)."""
+    node)``.  Loop bodies are taken 0 or 1 times (``continue``/``break`` jump to
+    the statement after the loop).  try/except: the body path plus, for each
+    handler, a path that enters the handler after each prefix of the body
+    (prefixes cut at statement boundaries)."""
     out = []
 
-    def go(stmts, prefix, k):
-        # k: continuation called with prefix when block falls through
+    def go(stmts, prefix, k, lk):
+        # k: continuation when the block falls through; lk: continuation of the
+        # innermost enclosing loop (target of break / continue), or None
         if len(out) > limit:
             raise AnalysisError("path explosion")
         if not stmts:
@@ -206,21 +208,22 @@ def enum_paths(body, limit=5000):
         elif isinstance(st, ast.Raise):
             out.append(prefix + [("raise", st)])
         elif isinstance(st, ast.If):
-            go(st.body, prefix + [("cond", st.test, True)], lambda p: go(rest, p, k))
-            go(st.orelse, prefix + [("cond", st.test, False)], lambda p: go(rest, p, k))
+            go(st.body, prefix + [("cond", st.test, True)], lambda p: go(rest, p, k, lk), lk)
+            go(st.orelse, prefix + [("cond", st.test, False)], lambda p: go(rest, p, k, lk), lk)
         elif isinstance(st, (ast.For, ast.While)):
             ev = ("loop", st)
-            go(rest, prefix + [ev, ("loopskip", st)], k)
-            go(st.body, prefix + [ev], lambda p: go(rest, p, k))
+            after = lambda p: go(rest, p, k, lk)
+            go(rest, prefix + [ev, ("loopskip", st)], k, lk)
+            go(st.body, prefix + [ev], after, after)
         elif isinstance(st, ast.With):
-            go(st.body, prefix + [("stmt", st)], lambda p: go(rest, p, k))
+            go(st.body, prefix + [("stmt", st)], lambda p: go(rest, p, k, lk), lk)
         elif isinstance(st, ast.Try):
-            go(st.body, prefix, lambda p: go(st.orelse + rest, p, k))
+            go(st.body, prefix, lambda p: go(st.orelse + rest, p, k, lk), lk)
             # handler paths: after 0..n statements of the try body (top level)
             for h in st.handlers:
                 for cut in range(len(st.body) + 1):
                     def after_prefix(p, h=h):
-                        go(h.body, p + [("handler", h)], lambda q: go(rest, q, k))
+                        go(h.body, p + [("handler", h)], lambda q: go(rest, q, k, lk), lk)
                     if cut == 0:
                         after_prefix(prefix)
                     else:
@@ -231,13 +234,18 @@ def enum_paths(body, limit=5000):
                             lambda p, cut=cut, after_prefix=after_prefix: after_prefix(
                                 p + [("partial", st.body[cut - 1])]
                             ),
+                            lk,
                         )
         elif isinstance(st, (ast.Break, ast.Continue)):
-            k(prefix + [("stmt", st)])
+            if lk is not None:
+                lk(prefix + [("stmt", st)])
+            else:
+                # a loop-body fragment is being enumerated on its own
+                out.append(prefix + [("stmt", st), ("fall", None)])
         else:
-            go(rest, prefix + [("stmt", st)], k)
+            go(rest, prefix + [("stmt", st)], k, lk)
 
-    go(list(body), [], lambda p: out.append(p + [("fall", None)]))
+    go(list(body), [], lambda p: out.append(p + [("fall", None)]), None)
     return out
 
 
